@@ -177,51 +177,12 @@ def drive(mod, tier, seed, recheck=True, write_evidence=True):
     t0 = time.time()
     pid = mod.ID
     import_repo()
-    jobs = list(mod.jobs(tier))
-    njobs = len(jobs)
-    if njobs and seed:
-        k = seed % njobs
-        jobs = jobs[k:] + jobs[:k]       # the seed only rotates the visiting order of shards
-    agg = Result()
     errors = []
-    done = 0
-    nproc = min(NPROC, max(1, njobs))
-    modname = mod.__name__
-    ctx = mp.get_context('fork')
-    with ctx.Pool(nproc, initializer=_worker_init) as pool:
-        for status, job, payload in pool.imap_unordered(_run, [(modname, j) for j in jobs], chunksize=1):
-            done += 1
-            if status == 'err':
-                errors.append((job, payload))
-                continue
-            agg.states += payload['states']
-            agg.transitions += payload['transitions']
-            agg.validated += payload['validated']
-            for k, (n, fl) in payload['failures'].items():
-                ent = agg.failures.setdefault(k, [0, []])
-                ent[0] += n
-                ent[1].extend(fl)
-                ent[1].sort(key=lambda f: (case_size(f['case']), json.dumps(f['case'], sort_keys=True, default=str)))
-                del ent[1][MAX_KEEP:]
-            for k, n in payload['outcomes'].items():
-                agg.outcomes[k] = agg.outcomes.get(k, 0) + n
-            for k, n in payload['skipped'].items():
-                agg.skipped[k] = agg.skipped.get(k, 0) + n
-            if payload['capped']:
-                agg.capped = payload['capped']
-            for k, v in payload['extra'].items():
-                if isinstance(v, (int, float)):
-                    agg.extra[k] = agg.extra.get(k, 0) + v
-                elif isinstance(v, list):
-                    agg.extra.setdefault(k, []).extend(v)
-                elif isinstance(v, dict):
-                    d = agg.extra.setdefault(k, {})
-                    for kk, vv in v.items():
-                        d[kk] = d.get(kk, 0) + vv if isinstance(vv, (int, float)) else vv
-                else:
-                    agg.extra[k] = v
-            if len(agg.samples) < 12:
-                agg.samples.extend(payload['samples'][:2])
+    if hasattr(mod, 'explore'):
+        # the check runs its own multi-round exploration (E3: level-synchronous BFS) and hands back a Result
+        agg, njobs, nproc = mod.explore(tier, seed)
+    else:
+        agg, njobs, nproc = run_pool(mod, tier, seed, errors)
     if errors:
         for job, tb in errors[:3]:
             sys.stdout.write('HARNESS-ERROR property=%s job=%r\n%s\n' % (pid, job, tb))
@@ -309,6 +270,70 @@ def drive(mod, tier, seed, recheck=True, write_evidence=True):
             print('VIOLATION property=%s replay=%s' % (pid, path))
         return 1
     return 0
+
+
+def run_pool(mod, tier, seed, errors):
+    jobs = list(mod.jobs(tier))
+    njobs = len(jobs)
+    if njobs and seed:
+        k = seed % njobs
+        jobs = jobs[k:] + jobs[:k]       # the seed only rotates the visiting order of shards
+    agg = Result()
+    done = 0
+    nproc = min(NPROC, max(1, njobs))
+    modname = mod.__name__
+    ctx = mp.get_context('fork')
+    with ctx.Pool(nproc, initializer=_worker_init) as pool:
+        for status, job, payload in pool.imap_unordered(_run, [(modname, j) for j in jobs], chunksize=1):
+            done += 1
+            if status == 'err':
+                errors.append((job, payload))
+                continue
+            agg.states += payload['states']
+            agg.transitions += payload['transitions']
+            agg.validated += payload['validated']
+            for k, (n, fl) in payload['failures'].items():
+                ent = agg.failures.setdefault(k, [0, []])
+                ent[0] += n
+                ent[1].extend(fl)
+                ent[1].sort(key=lambda f: (case_size(f['case']), json.dumps(f['case'], sort_keys=True, default=str)))
+                del ent[1][MAX_KEEP:]
+            for k, n in payload['outcomes'].items():
+                agg.outcomes[k] = agg.outcomes.get(k, 0) + n
+            for k, n in payload['skipped'].items():
+                agg.skipped[k] = agg.skipped.get(k, 0) + n
+            if payload['capped']:
+                agg.capped = payload['capped']
+            for k, v in payload['extra'].items():
+                if isinstance(v, (int, float)):
+                    agg.extra[k] = agg.extra.get(k, 0) + v
+                elif isinstance(v, list):
+                    agg.extra.setdefault(k, []).extend(v)
+                elif isinstance(v, dict):
+                    d = agg.extra.setdefault(k, {})
+                    for kk, vv in v.items():
+                        d[kk] = d.get(kk, 0) + vv if isinstance(vv, (int, float)) else vv
+                else:
+                    agg.extra[k] = v
+            if len(agg.samples) < 12:
+                agg.samples.extend(payload['samples'][:2])
+    return agg, njobs, nproc
+
+
+def merge_payload(agg, payload):
+    agg.states += payload['states']
+    agg.transitions += payload['transitions']
+    agg.validated += payload['validated']
+    for k, (n, fl) in payload['failures'].items():
+        ent = agg.failures.setdefault(k, [0, []])
+        ent[0] += n
+        ent[1].extend(fl)
+        ent[1].sort(key=lambda f: (case_size(f['case']), json.dumps(f['case'], sort_keys=True, default=str)))
+        del ent[1][MAX_KEEP:]
+    for k, n in payload['outcomes'].items():
+        agg.outcomes[k] = agg.outcomes.get(k, 0) + n
+    for k, n in payload['skipped'].items():
+        agg.skipped[k] = agg.skipped.get(k, 0) + n
 
 
 # ---------------------------------------------------------------------------------------------
